@@ -62,6 +62,105 @@ def replay_file(ctx, path, shared, tag, reps=8):
     return rows[0], rows[1:]
 
 
+def trace_cfg(shared):
+    return """SPECIFICATION TSpec
+CONSTANTS
+  Subject = {"s1", "s2", "s3"}
+  MaxAuth = 2
+  Shared = %s
+  MaxCounter = 1000000
+INVARIANTS HolderIsBest OneExclusive HolderAuthorized SharedEqualOnly Reconstruct
+CONSTRAINT HW
+POSTCONDITION TraceAccepted
+CHECK_DEADLOCK FALSE
+""" % ("TRUE" if shared else "FALSE")
+
+
+def record_trace(ctx, shared, rounds, tag, ops=6):
+    out = ctx.path("trace_%s.ndjson" % tag)
+    rc, text, wall = ctx.go_test(
+        "cesium", "./internal/control", ["zz_verif_control_test.go"], "^TestVerifControlConcurrent$",
+        env={"VERIF_OUT": out, "VERIF_SHARED": "1" if shared else "0", "VERIF_ROUNDS": rounds, "VERIF_OPS": ops},
+        tag=tag, race=True)
+    if "DATA RACE" in text:
+        raise vlib.Inconclusive("race detector report in the control package (C09's subject):\n" + text[:2000])
+    if rc != 0:
+        raise vlib.Inconclusive("concurrent control driver failed rc=%s:\n%s" % (rc, text[-2000:]))
+    with open(out) as f:
+        return f.read()
+
+
+def validate_trace(ctx, trace_text, shared, tag):
+    """Returns (accepted, hwm, n_events, tlc_result)."""
+    r = ctx.tlc(AREA, "ControlTrace", "tr.cfg", files={"tr.cfg": trace_cfg(shared), "trace.ndjson": trace_text},
+                workers=1, deque=True, tag=tag, timeout=1200, expect_violation=True)
+    n = len([x for x in trace_text.split("\n") if x.strip()])
+    hwm = None
+    for body in r.tagged("HWM"):
+        try:
+            hwm = int(body.split(",")[0].strip())
+        except ValueError:
+            pass
+    if r.violated:
+        return False, hwm, n, r
+    accepted = (r.rc == 0 and not r.postcondition_failed and hwm is None)
+    return accepted, hwm, n, r
+
+
+def concurrent_stage(ctx, thorough):
+    """Concurrent call/return traces from the real controller validated against
+    ControlTrace.tla (linearization between call and return)."""
+    total_events = total_rounds = tstates = 0
+    for shared in (False, True):
+        rounds = 150 if not thorough else 1500
+        tag = "conc_%s" % ("sh" if shared else "ex")
+        text = record_trace(ctx, shared, rounds, tag)
+        ok, hwm, n, r = validate_trace(ctx, text, shared, "tv_" + tag)
+        tstates += r.distinct
+        total_events += n
+        total_rounds += rounds
+        if not ok:
+            lines = [x for x in text.split("\n") if x.strip()]
+            at = (hwm or 1) - 1
+            lo = at
+            while lo > 0 and '"ev":"reset"' not in lines[lo]:
+                lo -= 1
+            hi = at + 1
+            while hi < len(lines) and '"ev":"reset"' not in lines[hi]:
+                hi += 1
+            chunk = lines[lo:hi]
+            what = ("invariant %s violated in the state the trace leads to" % r.violated) if r.violated else \
+                "no linearization of the recorded calls explains event %d: %s" % (at - lo, lines[at] if at < len(lines) else "?")
+            ctx.report("C05 concurrent trace rejected (%s)" % ("shared" if shared else "exclusive"),
+                       "concurrent control trace (%s) rejected by ControlTrace.tla: %s" % ("shared" if shared else "exclusive", what),
+                       {"trace": chunk, "shared": shared, "unexplained_event_index": at - lo, "kind": "trace"})
+    return total_rounds, total_events, tstates
+
+
+def selftest(ctx):
+    """Binding self-test: a genuine trace is accepted; the same trace with one
+    observation flipped, and with one event dropped, is rejected."""
+    text = record_trace(ctx, False, 20, "st")
+    ok, _, _, _ = validate_trace(ctx, text, False, "st_ok")
+    lines = [x for x in text.split("\n") if x.strip()]
+    flipped = list(lines)
+    for i, ln in enumerate(flipped):
+        if '"op":"authorize"' in ln and '"ev":"ret"' in ln:
+            e = json.loads(ln)
+            e["ok"] = not e["ok"]
+            flipped[i] = json.dumps(e)
+            break
+    ok2, _, _, _ = validate_trace(ctx, "\n".join(flipped) + "\n", False, "st_flip")
+    dropped = list(lines)
+    for i, ln in enumerate(dropped):
+        if '"op":"open"' in ln and '"ev":"ret"' in ln and '"err":"nil"' in ln:
+            del dropped[i - 0]
+            break
+    ok3, _, _, _ = validate_trace(ctx, "\n".join(dropped) + "\n", False, "st_drop")
+    print("selftest: genuine accepted=%s, flipped rejected=%s, dropped rejected=%s" % (ok, not ok2, not ok3))
+    return 0 if (ok and not ok2 and not ok3) else 1
+
+
 def run(ctx):
     thorough = ctx.tier == "thorough"
     states = trans = 0
@@ -132,9 +231,11 @@ def run(ctx):
             step.get("auth"), b["exp"], b["act"]),
             {"history": hist, "shared": shared, "mismatch": b,
              "cmd": "python3 tools/verif.py replay C05 <this file>"})
+    rounds, events, tstates = concurrent_stage(ctx, thorough)
     cov = {
         "states": states, "transitions": trans,
-        "traces_validated_against_impl": total,
+        "concurrent_rounds_validated": rounds, "concurrent_events": events, "trace_validation_states": tstates,
+        "traces_validated_against_impl": total + rounds,
         "samples": samples,
         "exhaustive": True,
         "design_runs": design,
@@ -153,6 +254,14 @@ def run(ctx):
 def replay(ctx, path):
     with open(path) as f:
         obj = json.load(f)
+    if obj.get("kind") == "trace":
+        ok, hwm, n, r = validate_trace(ctx, "\n".join(obj["trace"]) + "\n", obj.get("shared", False), "replay")
+        if not ok:
+            print("VIOLATION property=C05 replay=%s" % path)
+            print("  recorded trace still rejected (high-water mark %s of %s events)" % (hwm, n))
+            return 1
+        print("replay: recorded trace is accepted by the current specification")
+        return 0
     one = ctx.path("one.ndjson")
     with open(one, "w") as f:
         f.write(json.dumps(obj["history"]) + "\n")
